@@ -81,6 +81,13 @@ pub fn lex(args: &Value) -> Outcome {
             let got = arg_of(&format!("{{ f(a: \"\"\"{}\"\"\") }}", w));
             let e = ref_block(&w);
             match got { Ok(GqlValue::String(g)) if g == e => {}, g => note(&mut bad, format!("block string {:?}: BlockStringValue is {:?}, parser gave {:?}", w, e, g)) } },
+        "block_lines" => { let shapes = ["", " ", "  ", "\t", "  a", " a", "a", "   a ", "\t a", "\u{3000}b", "\u{a0}", "  \\\"\"\"", "\u{e9} "];
+            for sep in ["\n", "\r\n", "\r"] { for a in shapes { for b in shapes { for c in shapes { for d in ["", "  a", " ", "a"] {
+                let w = format!("{}{}{}{}{}{}{}", a, sep, b, sep, c, if d.is_empty() { "" } else { sep }, d);
+                n += 1; nontrivial += 1;
+                let got = arg_of(&format!("{{ f(a: \"\"\"{}\"\"\") }}", w));
+                let e = ref_block(&w);
+                match got { Ok(GqlValue::String(g)) if g == e => {}, g => note(&mut bad, format!("block string {:?}: BlockStringValue is {:?}, parser gave {:?}", w, e, g)) } } } } } } },
         "numbers" => for w in words(&['0', '1', '9', '-', '.', 'e', '+'], 5) {
             if w.is_empty() { continue; }
             if args["skip_negative_zero"] == true && w.starts_with("-0") && ref_number(&w) == Some(false) { continue; }
@@ -113,5 +120,5 @@ const DOCS: &[(&str, bool)] = &[
 pub fn inputs(_seed: u64, open: &[String]) -> impl Iterator<Item = Value> {
     let has = |id: &str| open.iter().any(|x| x == id);
     vec![json!({"kind": "docs", "skip_fragment_named_on": has("C13-fragment-spread-named-on")}), json!({"kind": "strings"}), json!({"kind": "unicode"}),
-         json!({"kind": "numbers", "skip_negative_zero": has("C13-negative-zero-is-a-float"), "skip_inexact_floats": has("C13-float-literals-not-correctly-rounded")}), json!({"kind": "blocks"})].into_iter()
+         json!({"kind": "numbers", "skip_negative_zero": has("C13-negative-zero-is-a-float"), "skip_inexact_floats": has("C13-float-literals-not-correctly-rounded")}), json!({"kind": "blocks"}), json!({"kind": "block_lines"})].into_iter()
 }
